@@ -91,8 +91,13 @@ def handle (cmd : String) (j : Json) : Option (Except String Json) :=
     let value ← fieldVal j "value"
     let path := fieldStr j "path"
     let out := setByPath obj path value
-    pure (Json.mkObj [("out", encVal out), ("lands", .bool (landsPath obj path)),
-      ("stable", .bool (stablePath path)), ("reads", .bool (readsAs out path value))])
+    let lands := landsPath obj path
+    let implSpec ← (match field j "impl" with
+      | .null => pure Json.null
+      | i => do let o ← fieldVal i "v"; pure (Json.bool (if lands then readsAs o path value else true)))
+    pure (Json.mkObj [("out", encVal out), ("lands", .bool lands),
+      ("stable", .bool (stablePath path)), ("spec_model", .bool (if lands then readsAs out path value else true)),
+      ("spec_impl", implSpec)])
   | "redact" => some do
     let env ← fieldVal j "env"
     let specs ← decSpecs (field j "specs")
@@ -107,7 +112,7 @@ def handle (cmd : String) (j : Json) : Option (Except String Json) :=
                                ("placeholder", .bool (specPlaceholder env ws out))]
     let implSpec ← (match field j "impl" with
       | .null => pure Json.null
-      | i => do let o ← decVal i; pure (specOn o))
+      | i => do let o ← fieldVal i "v"; pure (specOn o))
     let covered : List Json := match ws with
       | none => []
       | some ws => (secrets.filter fun s => coveredAt s env ws || coveredStable s env ws).map Json.str
@@ -146,7 +151,7 @@ def handle (cmd : String) (j : Json) : Option (Except String Json) :=
       if !emitted then pure (Json.mkObj [("sampling", .bool sampling)])
       else
         let marker := (effBound cfg).isSome && (isMarker out).isSome
-        if (effBound cfg).isSome && !marker && !known out then throw "jsonSize table misses the observed env"
+        if (effBound cfg).isSome && !red.2 && !marker && !known out then throw "jsonSize table misses the observed env"
         let size := if red.2 then true else specSize cfg js (js red.1) out
         let redactionSpecs : List (String × Json) :=
           match ws with
